@@ -20,7 +20,7 @@ CONF="no"; if [ "$DW" = 0 ] && [ "$DP" != 0 ] && [ "$SU" = 0 ] && [ "$PASSED" = 
 git -C /repo worktree remove --force "$WT"
 mkdir -p seeded/$ID; cp "$SRC/patch.diff" "$SRC/demo.rs" seeded/$ID/; cp "$SRC/notes.md" seeded/$ID/notes.md 2>/dev/null
 RESULTS=""
-if [ "$CONF" = yes ]; then
+if [ "$CONF" = yes ] && [ -z "${CONFIRM_ONLY:-}" ]; then
   git -C /repo apply "$SRC/patch.diff" || { echo "cannot apply to /repo"; exit 2; }
   for c in $CHECKS; do
     OUT=$(bin/check $c quick 2>&1); EC=$?
